@@ -38,9 +38,10 @@ ASSUMPTIONS = [
 
 # known candidate defects on the unchanged tree; the generators avoid these shapes by construction while True
 EXCLUDE_KNOWN = {
-    "labels/number-to-label-assumes-two-2digit-codes-above-Z": True,
-    "avg/burnup-includes-ineligible-members": True,
-    "uncaught/AttributeError/armi/physics/neutronics/crossSectionGroupManager.py:_makeRepresentativeBlock": True,
+    # all three were repaired in /repo (fix: commits 81362b1, 62a826e, 31b6123): the shapes are searched again
+    "labels/number-to-label-assumes-two-2digit-codes-above-Z": False,
+    "avg/burnup-includes-ineligible-members": False,
+    "uncaught/AttributeError/armi/physics/neutronics/crossSectionGroupManager.py:_makeRepresentativeBlock": False,
 }
 SIG_LABEL = "labels/number-to-label-assumes-two-2digit-codes-above-Z"
 SIG_BURNUP = "avg/burnup-includes-ineligible-members"
@@ -178,6 +179,7 @@ def _block_text(name, design, s):
         t += "        fuel: {shape: Circle, material: UZr, Tinput: 25.0, Thot: 600.0, id: 0.0, od: %r, mult: 19}\n" % _r(0.7 * s)
         t += "        bond: {shape: Circle, material: Sodium, Tinput: 450.0, Thot: 450.0, id: fuel.od, od: clad.id, mult: fuel.mult}\n"
         t += "        clad: {shape: Circle, material: HT9, Tinput: 25.0, Thot: 470.0, id: %r, od: %r, mult: fuel.mult}\n" % (_r(0.8 * s), _r(0.9 * s))
+        t += "        gap: {shape: Circle, material: Void, Tinput: 450.0, Thot: 450.0, id: clad.od, od: %r, mult: fuel.mult}\n" % _r(0.92 * s)
         t += ("        wire: {shape: Helix, material: HT9, Tinput: 25.0, Thot: 450.0, axialPitch: 30.0, helixDiameter: %r, id: 0.0, "
               "od: %r, mult: fuel.mult}\n" % (_r(1.0 * s), _r(0.1 * s)))
     elif FAMILY[design] == "reflector":
@@ -503,7 +505,7 @@ NUC_ADD = ["FE56", "NA23", "U235", "PU239", "AM242M"]
 
 def _block_strategy(with_xs=False):
     temps = st.lists(st.one_of(st.sampled_from([300.0, 450.0, 600.0]), st.floats(100.0, 800.0).map(lambda x: round(x, 2))),
-                     min_size=7, max_size=7)
+                     min_size=8, max_size=8)
     d = {
         "design": st.sampled_from([0, 0, 0, 1, 1, 2, 3]),
         "scale": st.sampled_from([0.8, 0.9, 1.0, 1.1]),
@@ -511,13 +513,14 @@ def _block_strategy(with_xs=False):
         "enrich": st.floats(0.02, 0.3).map(lambda x: round(x, 4)),
         "zr": st.floats(0.03, 0.12).map(lambda x: round(x, 4)),
         "temps": temps,
-        "expand": st.lists(st.booleans(), min_size=7, max_size=7),
-        "edits": st.lists(st.fixed_dictionaries({"c": st.integers(0, 6), "n": st.integers(0, 40),
+        "expand": st.lists(st.booleans(), min_size=8, max_size=8),
+        "edits": st.lists(st.fixed_dictionaries({"c": st.integers(0, 7), "n": st.integers(0, 40),
                                                  "f": st.one_of(st.sampled_from([0.0, 0.5, 2.0]), st.floats(0.1, 5.0))}), max_size=4),
-        "adds": st.lists(st.fixed_dictionaries({"c": st.integers(0, 6), "nuc": st.sampled_from(NUC_ADD),
+        "adds": st.lists(st.fixed_dictionaries({"c": st.integers(0, 7), "nuc": st.sampled_from(NUC_ADD),
                                                 "v": st.sampled_from([0.0, 1e-15, 1e-7, 1e-4, 2e-3])}), max_size=2),
         "like": st.one_of(st.none(), st.none(), st.integers(0, 11)),
-        "bu": st.one_of(st.sampled_from([0.0, 0.0, 3.0, 10.0, 30.0]), st.floats(0.0, 100.0).map(lambda x: round(x, 4))),
+        "bu": st.one_of(st.sampled_from([0.0, 3.0, 10.0, 30.0]), st.floats(0.0, 100.0).map(lambda x: round(x, 4)),
+                        st.floats(0.0, 20.0).map(lambda x: round(x, 3))),
         "hm": st.sampled_from([1.0, 1.0, 0.5, 1.7, 0.0]),
         "flux": st.one_of(st.sampled_from([1.0, 1e14]), st.floats(1e8, 1e16)),
         "fluxZero": st.booleans(),
@@ -575,10 +578,10 @@ def _avoid_known_collections(case):
 def collections_strategy(tier):
     base = st.fixed_dictionaries({
         "blocks": _block_lists(_block_strategy()),
-        "rep": st.sampled_from(["Median", "Average", "Average", "FluxWeightedAverage", "FluxWeightedAverage", "Cylinder"]),
+        "rep": st.sampled_from(["Average", "FluxWeightedAverage", "Median", "FluxWeightedAverage", "Average", "Cylinder", "Median"]),
         "byComponent": st.booleans(),
         "filter": st.integers(0, len(FILTERS) - 1),
-        "fluxMode": st.sampled_from(["positive", "positive", "positive", "zero", "mixed"]),
+        "fluxMode": st.sampled_from(["positive", "zero-ineligible", "mixed", "zero", "positive", "mixed", "zero-ineligible"]),
         "lfp": st.sampled_from([0, 1, 2]),
         "xsType": st.sampled_from(["A", "B", "Z", "a", "k", "z", "AA", "Ad", "ZZ", "zz"]),
         "envGroup": st.sampled_from(["A", "A", "B", "Z", "a", "z"]),
@@ -654,6 +657,17 @@ def check_average(out, ex, rep, coll, kind, byComp, prefix="avg"):
     check_nuc_temps(out, ex, coll.avgNucTemperatures, prefix)
 
 
+def check_template(out, cand, rep, prefix):
+    """The representative is a re-filled copy of an eligible member: same type, components and component volumes."""
+    words = set(rep.getType().split())
+    names = [c.getName() for c in rep]
+    vols = [float(c.getVolume()) for c in rep]
+    ok = any(m["words"] == words and [c["name"] for c in m["comps"]] == names
+             and all(_close(a, c["vol"], 1e-9) for a, c in zip(vols, m["comps"])) for m in cand)
+    out.check(ok, prefix + "/representative-not-shaped-like-an-eligible-member",
+              lambda: "representative of type %r (components %s) matches no eligible member %s" % (rep.getType(), names, [m["name"] for m in cand]))
+
+
 def check_burnup(out, ex_all, elig_mask, rep, prefix="avg"):
     """Burnup = heavy-metal-weighted mean over the eligible members."""
     np = ex_all.np
@@ -719,7 +733,7 @@ def collections_execute(case):
     from armi.utils import units
 
     out = Out()
-    assert units.TRACE_NUMBER_DENSITY == TRACE
+    out.check(units.TRACE_NUMBER_DENSITY == TRACE, "harness/trace-constant", "armi's trace number density is no longer %r" % TRACE)
     for sig in case.get("excluded", []):
         out.label("excluded:" + sig)
     specs = resolve_like(case["blocks"])
@@ -727,11 +741,16 @@ def collections_execute(case):
     filt = _pick_filter(case, specs)
     byComp = bool(case["byComponent"]) and kind in ("Average", "FluxWeightedAverage")
     fluxW = kind == "FluxWeightedAverage"
-    # flux values per mode
+    # flux values per mode: all positive / all zero / mixed among the eligible members (first eligible zero, second
+    # positive, the others by their own flag) / zero only on ineligible members (must not matter)
+    elig_idx = [i for i, s in enumerate(specs) if not filt or any(set(f.split()) <= set(DESIGNS[s["design"]].split()) for f in filt)]
     for i, s in enumerate(specs):
         if case["fluxMode"] == "zero":
             s["flux"] = 0.0
-        elif case["fluxMode"] == "mixed" and s["fluxZero"]:
+        elif case["fluxMode"] == "mixed" and len(elig_idx) >= 2:
+            if i == elig_idx[0] or (s["fluxZero"] and i != elig_idx[1]):
+                s["flux"] = 0.0
+        elif case["fluxMode"] == "zero-ineligible" and i not in elig_idx:
             s["flux"] = 0.0
     xs = case["xsType"]
     env_ = case["envGroup"] if len(xs) == 1 else "A"
@@ -764,6 +783,8 @@ def collections_execute(case):
               "families:%d" % len(families), "lfp:%d" % case["lfp"])
     if fluxW:
         out.label("flux:" + ("mixed" if ex.mixed else "allzero" if ex.allzero else "positive"))
+        if not ex.mixed and ex_all.mixed:
+            out.label("flux:zero-on-ineligible-only")
     if len(xs) == 2:
         out.label("xs:two-letter")
     elif xs in LOWER:
@@ -841,7 +862,7 @@ def collections_execute(case):
     if kind == "Cylinder":
         import numpy as np
 
-        out.check(rep.name.startswith("1D_CYL_AVG_"), "cyl/name", lambda: rep.name)
+        check_template(out, cand, rep, "cyl")
         rc = {c.getName(): c for c in rep}
         for cname in [c["name"] for c in cand[0]["comps"]]:
             areas = np.array([[x for x in m["comps"] if x["name"] == cname][0]["area"] for m in cand])
@@ -866,16 +887,16 @@ def collections_execute(case):
     performBy = byComp and len(families) == 1
     if byComp:
         out.label("byComponent:" + ("performed" if performBy else "fallback-dissimilar"))
-    out.check(rep.name == "AVG_" + rep.getMicroSuffix(), "avg/name", lambda: rep.name)
+    check_template(out, cand, rep, "avg")
     check_average(out, ex, rep, coll, kind, performBy)
     check_burnup(out, ex_all, mask, rep)
 
     def same_as(rep2, coll2, sig, what):
-        import numpy as np
-
         if performBy:
             rc1 = {c.getName(): c for c in rep}
             rc2 = {c.getName(): c for c in rep2}
+            if not out.check(sorted(rc1) == sorted(rc2), sig, lambda: "%s: components %s -> %s" % (what, sorted(rc1), sorted(rc2))):
+                return
             for cname in rc1:
                 g1 = [rc1[cname].p.numberDensities.get(n, 0.0) for n in nuclides]
                 g2 = [rc2[cname].p.numberDensities.get(n, 0.0) for n in nuclides]
@@ -890,7 +911,6 @@ def collections_execute(case):
         t1, t2 = coll.avgNucTemperatures, coll2.avgNucTemperatures
         bad = [n for n in nuclides if not _close(t1[n], t2[n])]
         out.check(not bad, sig, lambda: "%s: temperature of %s %r -> %r" % (what, bad[0], float(t1[bad[0]]), float(t2[bad[0]])))
-        return np
 
     # invariance: duplicating every member
     dup = _make_collection(kind, nuclides, filt, bool(case["byComponent"]))
@@ -901,9 +921,8 @@ def collections_execute(case):
         dup.append(twin)
     rep2 = dup.createRepresentativeBlock()
     same_as(rep2, dup, "avg/changes-when-every-member-is-duplicated", "duplicating every member")
-    if True:
-        out.check(_close(rep.p.percentBu, rep2.p.percentBu), "avg/changes-when-every-member-is-duplicated",
-                  lambda: "burnup %r -> %r" % (rep.p.percentBu, rep2.p.percentBu))
+    out.check(_close(rep.p.percentBu, rep2.p.percentBu), "avg/changes-when-every-member-is-duplicated",
+              lambda: "burnup %r -> %r" % (rep.p.percentBu, rep2.p.percentBu))
     # invariance: only the eligible members
     if len(cand) < len(meas):
         only = _make_collection(kind, nuclides, filt, bool(case["byComponent"]))
@@ -941,6 +960,9 @@ def _avoid_known_grouping(case):
     # ineligible members (by the filter of their xs type) get massHmBOL = 0 in execute while the defect is excluded
     case["zeroHmIneligible"] = bool(EXCLUDE_KNOWN.get(SIG_BURNUP))
     case["excluded"] = excluded
+    if case["profile"] == "many":  # 8 x 6 = 48 environment groups: reaches the lower-case letters
+        case["buGroups"] = [2, 5, 10, 15, 20, 30, 50]
+        case["tempGroups"] = [200, 300, 400, 500, 600]
     return case
 
 
@@ -964,6 +986,7 @@ def grouping_strategy(tier):
         "fluxMode": st.sampled_from(["positive", "positive", "zero"]),
         "lfp": st.sampled_from([0, 0, 1]),
         "onBoundary": st.booleans(),
+        "profile": st.sampled_from(["free", "free", "free", "many"]),
     })
     return base.map(_avoid_known_grouping)
 
@@ -1069,7 +1092,6 @@ def grouping_execute(case):
     for key, coll in groups.items():
         # (copies of blueprint-only blocks may join any group their refreshed suffix names - _getMissingBlueprintBlocks)
         out.check(len(coll) > 0, "group/empty-group", "group %r is empty" % key)
-    out.check(list(groups) == sorted(groups), "group/keys-not-sorted", lambda: "%s" % list(groups))
 
     # ---- environment group from the boundaries
     lower = 0
@@ -1189,6 +1211,7 @@ def grouping_execute(case):
         class _C:  # the manager keeps the collection's temperatures under the group key
             avgNucTemperatures = got_t or {}
 
+        check_template(out, cand, rep, "avg")
         check_average(out, ex, rep, _C, kind, performBy)
         check_burnup(out, Expect(ms, nuclides, fluxW), mask, rep)
     return out
@@ -1200,7 +1223,7 @@ PARTS = [
               "character codes and injective over the whole domain, number -> label and the linked block parameters "
               "(xsType <-> xsTypeNum) return the label; the 52 environment letters <-> 0..51; every label is non-trivial",
          bound=lambda t: "all labels of length 1 and 2 over 52 letters"),
-    Part("collections", collections_execute, strategy=collections_strategy, budget={"quick": 500, "thorough": 30000},
+    Part("collections", collections_execute, strategy=collections_strategy, budget={"quick": 500, "thorough": 24000},
          procs={"quick": 8, "thorough": 16},
          rule="Hypothesis: 1-12 single-block assemblies from blueprint text (4 block designs, pin scale, enrichment, height), "
               "edited per component (temperature with/without expansion, nuclide densities scaled/zeroed/added), burnup, massHmBOL, "
@@ -1209,7 +1232,7 @@ PARTS = [
               "volume) for densities, component and nuclide temperatures, HM-weighted burnup, median member, plus range / common "
               "value / duplication / eligible-only / rescaling invariance and unchanged source blocks; non-trivial = >= 3 eligible "
               "members with distinct compositions and non-uniform weights"),
-    Part("grouping", grouping_execute, strategy=grouping_strategy, budget={"quick": 300, "thorough": 20000},
+    Part("grouping", grouping_execute, strategy=grouping_strategy, budget={"quick": 300, "thorough": 12000},
          procs={"quick": 8, "thorough": 16},
          rule="Hypothesis: generated full hex core (1-12 blocks, xs types incl. lower-case and two-letter, stale env groups), buGroups / "
               "tempGroups boundaries (burnups placed on boundaries), crossSectionControl entries, representation setting; oracle: every "
